@@ -41,7 +41,7 @@ type C = Cache<CK, CV, IdBuild>;
 
 #[derive(Clone, Copy, Debug, PartialEq)]
 pub struct Cfg { cap: Option<u64>, ttl: Option<u64>, tti: Option<u64>, weigher: Option<u8> }
-const WEIGHTS: [[u32; 4]; 4] = [[1, 2, 0, 5], [1, 1, 3, 9], [0, 0, 2, 1], [3_000_000_000, 3_000_000_000, 1, 2]];
+const WEIGHTS: [[u32; 4]; 5] = [[1, 2, 0, 5], [1, 1, 3, 9], [0, 0, 2, 1], [3_000_000_000, 3_000_000_000, 1, 2], [1, 120, 101, 100]];
 fn weight_of(cfg: &Cfg, v: u8) -> u32 { match cfg.weigher { None => 1, Some(t) => WEIGHTS[t as usize][(v % 4) as usize] } }
 
 #[derive(Clone, Copy, Debug, PartialEq)]
@@ -290,16 +290,30 @@ fn classify(op: Op, cfg: &Cfg, exp: &Snap, got: &Snap, exp_res: &str, got_res: &
     None
 }
 
+/// the cache is built the way a user builds it (builder chain -> with_everything), so that the configuration pass-through is
+/// part of what is compared with the specification; capacities 2 and 3 go through `with_everything` directly (both entries)
+fn build(cfg: &Cfg) -> C {
+    if cfg.cap == Some(2) || cfg.cap == Some(3) {
+        let weigher: Option<Weigher<CK, CV>> = cfg.weigher.map(|t| Box::new(move |_k: &CK, v: &CV| WEIGHTS[t as usize][(v.0 % 4) as usize]) as Weigher<CK, CV>);
+        return Cache::with_everything(cfg.cap, None, IdBuild, weigher, cfg.ttl.map(Duration::from_nanos), cfg.tti.map(Duration::from_nanos));
+    }
+    let mut b = Cache::<CK, CV>::builder().initial_capacity(if cfg.cap == Some(6) { 50 } else { 0 });
+    if let Some(c) = cfg.cap { b = b.max_capacity(c); }
+    if let Some(d) = cfg.ttl { b = b.time_to_live(Duration::from_nanos(d)); }
+    if let Some(d) = cfg.tti { b = b.time_to_idle(Duration::from_nanos(d)); }
+    if let Some(t) = cfg.weigher { b = b.weigher(move |_k: &CK, v: &CV| WEIGHTS[t as usize][(v.0 % 4) as usize]); }
+    b.build_with_hasher(IdBuild)
+}
+
 pub fn run_history(cfg: Cfg, ops: &[Op]) -> Option<(usize, Finding)> {
     LIVE_K.with(|c| c.set(0)); LIVE_V.with(|c| c.set(0));
-    let weigher: Option<Weigher<CK, CV>> = cfg.weigher.map(|t| Box::new(move |_k: &CK, v: &CV| WEIGHTS[t as usize][(v.0 % 4) as usize]) as Weigher<CK, CV>);
-    let mut c: C = Cache::with_everything(cfg.cap, None, IdBuild, weigher, cfg.ttl.map(Duration::from_nanos), cfg.tti.map(Duration::from_nanos));
+    let mut c: C = build(&cfg);
     let (clock, mock) = Clock::mock();
     c.set_expiration_clock(Some(clock));
     {   // C17: the cache reports exactly the configuration it was built with
         let pol = c.policy();
         if pol.max_capacity() != cfg.cap || pol.time_to_live() != cfg.ttl.map(Duration::from_nanos) || pol.time_to_idle() != cfg.tti.map(Duration::from_nanos) {
-            return Some((0, Finding { tags: "C17", what: format!("policy() reports ({:?}, {:?}, {:?})", pol.max_capacity(), pol.time_to_live(), pol.time_to_idle()) }));
+            return Some((0, Finding { tags: "C17,C05,C06,C04", what: format!("policy() reports ({:?}, {:?}, {:?})", pol.max_capacity(), pol.time_to_live(), pol.time_to_idle()) }));
         }
     }
     let mut spec = Spec { cfg, sketch: FrequencySketch::default() };
@@ -335,8 +349,7 @@ pub fn run_history(cfg: Cfg, ops: &[Op]) -> Option<(usize, Finding)> {
 /// C15 as stated (metamorphic): the answers of all lookups of `ops` on the real cache, optionally with one extra observer call
 /// inserted before position `extra.0`; also tells whether a weight surplus was pending when that extra call was made
 fn lookups(cfg: Cfg, ops: &[Op], extra: Option<(usize, Op)>) -> (Vec<String>, bool) {
-    let weigher: Option<Weigher<CK, CV>> = cfg.weigher.map(|t| Box::new(move |_k: &CK, v: &CV| WEIGHTS[t as usize][(v.0 % 4) as usize]) as Weigher<CK, CV>);
-    let mut c: C = Cache::with_everything(cfg.cap, None, IdBuild, weigher, cfg.ttl.map(Duration::from_nanos), cfg.tti.map(Duration::from_nanos));
+    let mut c: C = build(&cfg);
     let (clock, mock) = Clock::mock();
     c.set_expiration_clock(Some(clock));
     let mut out = Vec::new(); let mut pending = false;
@@ -416,6 +429,41 @@ fn shrink(cfg: Cfg, ops: Vec<Op>, tags: &'static str) -> Vec<Op> {
     }
 }
 
+
+/// C17 on a grid of configurations: policy() echoes what the builder was given, `new(n)` is `builder().max_capacity(n).build()`,
+/// and `build` / `build_with_hasher` panic exactly when a duration exceeds 1000 years
+fn config_grid() -> Vec<String> {
+    use std::panic::{catch_unwind, AssertUnwindSafe};
+    let mut bad = Vec::new();
+    let y1000 = Duration::from_secs(1000 * 365 * 24 * 3600);
+    let caps = [0u64, 1, 7, 1 << 32, u64::MAX - u32::MAX as u64 - 1, u64::MAX - u32::MAX as u64, u64::MAX - u32::MAX as u64 + 1, u64::MAX - 1, u64::MAX];
+    let durs = [None, Some(Duration::from_nanos(0)), Some(Duration::from_nanos(1)), Some(y1000)];
+    for cap in caps.iter().map(|c| Some(*c)).chain(std::iter::once(None)) {
+        for ttl in durs { for tti in durs { for init in [None, Some(0usize), Some(3)] { for hasher in [false, true] {
+            let mk = || { let mut b = Cache::<u8, u8>::builder();
+                if let Some(c) = cap { b = b.max_capacity(c); } if let Some(d) = ttl { b = b.time_to_live(d); } if let Some(d) = tti { b = b.time_to_idle(d); }
+                if let Some(i) = init { b = b.initial_capacity(i); } b };
+            let pol = if hasher { mk().build_with_hasher(IdBuild).policy() } else { mk().build().policy() };
+            if pol.max_capacity() != cap || pol.time_to_live() != ttl || pol.time_to_idle() != tti {
+                bad.push(format!("builder(cap {:?}, ttl {:?}, tti {:?}, initial {:?}, custom hasher {}) -> policy() reports ({:?}, {:?}, {:?})", cap, ttl, tti, init, hasher, pol.max_capacity(), pol.time_to_live(), pol.time_to_idle()));
+            }
+        }}}}
+        if let Some(c) = cap {
+            let p = Cache::<u8, u8>::new(c).policy();
+            if p.max_capacity() != Some(c) || p.time_to_live().is_some() || p.time_to_idle().is_some() { bad.push(format!("new({}) -> policy() reports ({:?}, {:?}, {:?})", c, p.max_capacity(), p.time_to_live(), p.time_to_idle())); }
+        }
+    }
+    let over = y1000 + Duration::from_nanos(1);
+    let hook = std::panic::take_hook(); std::panic::set_hook(Box::new(|_| {}));
+    for (ttl, tti) in [(Some(over), None), (None, Some(over)), (Some(over), Some(over)), (Some(y1000), Some(over))] { for hasher in [false, true] {
+        let r = catch_unwind(AssertUnwindSafe(|| { let mut b = Cache::<u8, u8>::builder().max_capacity(10);
+            if let Some(d) = ttl { b = b.time_to_live(d); } if let Some(d) = tti { b = b.time_to_idle(d); }
+            if hasher { let _ = b.build_with_hasher(IdBuild); } else { let _ = b.build(); } }));
+        if r.is_ok() { bad.push(format!("builder(ttl {:?}, tti {:?}, custom hasher {}) did not panic although a duration exceeds 1000 years", ttl, tti, hasher)); }
+    }}
+    std::panic::set_hook(hook);
+    bad
+}
 #[test]
 fn verif_rt_unsync() {
     let tier = std::env::var("VERIF_RT_TIER").unwrap_or_else(|_| "quick".into());
@@ -489,6 +537,19 @@ fn verif_rt_unsync() {
             }
         }
     }
+    // directed part: an admission that needs more victims than one maintenance batch (100): 150 weight-1 residents, a newcomer of
+    // weight 100 / 101 / 120 that was looked up more often than all of them together
+    for heavy in [1u8, 2, 3] { for lookups in [0usize, 1, 3] {
+        if findings >= 6 { break; }
+        let cfg = Cfg { cap: Some(150), ttl: None, tti: None, weigher: Some(4) };
+        let mut seq: Vec<Op> = (0..150u8).map(|k| Op::Insert(k, 0)).collect();
+        for _ in 0..lookups { seq.push(Op::Get(200)); }
+        seq.push(Op::Insert(200, heavy)); seq.push(Op::Iter); seq.push(Op::Get(0)); seq.push(Op::Get(200));
+        histories += 1; steps += seq.len() as u64;
+        if let Some((at, f)) = run_history(cfg, &seq) {
+            if !seen_tags.contains(&f.tags) { seen_tags.push(f.tags); report(&cfg, &seq[at.saturating_sub(4)..], at.min(4), &f); findings += 1; }
+        }
+    }}
     // metamorphic part, C15 as stated: one extra contains_key / iteration anywhere in a history changes no other lookup
     let mut meta_pairs = 0u64; let mut seen_meta: Vec<bool> = Vec::new();
     let mut meta = |cfg: Cfg, seq: &[Op], findings: &mut i32, histories: &mut u64| {
@@ -516,6 +577,7 @@ fn verif_rt_unsync() {
     }
     let known_family = seen_meta.iter().filter(|k| **k).count() as i32;
     println!("RT-NOTE metamorphic_base_histories={} (each with every insertion point x 4 observers)", meta_pairs);
+    for b in config_grid() { println!("RT-FAIL tags=C17 what={} cfg=- failing_op_index=0 history=[]", b); findings += 1; if findings >= 3 { break; } }
     println!("RT-SUMMARY harness=unsync tier={} seed={} histories={} steps={} configs={} alphabet={} exhaustive_len={} sampled={}x{} findings={}",
         tier, seed, histories, steps, cfgs.len(), ops.len(), exh_len, rnd_n, rnd_len, findings);
     assert!(findings - known_family == 0, "runtime contract check found {} violation(s)", findings);
